@@ -5,6 +5,7 @@
 //   CFG <slot> <budget> <mode> <state> <flags>   configure stream slot (sink fault as an explicit op)
 //   OP <name> <seed> <p0> <p1> <slot> <fault> <a> <b> [value-class]
 //        fault: none | alloc k | allocfrom k | alloceach | sink budget mode | sinkeach | cold k persistent
+//   EXITOP <name> <seed>                         queue the op to run during static destruction (after main returns)
 //   MODE <0..3>                                  set the floating-point rounding mode for the rest of the run
 //   REP <name> <seed> <n> <vary>                 the same op n times, seed + i*vary (endurance, fault-free)
 //   END
@@ -18,6 +19,7 @@
 #include <map>
 #include <new>
 #include <sstream>
+#include <thread>
 #include <typeinfo>
 #include <unistd.h>
 
@@ -132,7 +134,19 @@ bool g_fault_armed = false;
   _exit(78);
 }
 
+bool g_in_thread = false;   // execute the call on a short-lived second thread (joined before anything else happens)
+
+Outcome run_once_here(const OpEntry& e, Ctx& c, std::uint64_t seed, long p0, long p1, std::ostream* os);
+
 Outcome run_once(const OpEntry& e, Ctx& c, std::uint64_t seed, long p0, long p1, std::ostream* os) {
+  if (!g_in_thread) return run_once_here(e, c, seed, p0, p1, os);
+  Outcome o;
+  std::thread t([&] { o = run_once_here(e, c, seed, p0, p1, os); });
+  t.join();
+  return o;
+}
+
+Outcome run_once_here(const OpEntry& e, Ctx& c, std::uint64_t seed, long p0, long p1, std::ostream* os) {
   Outcome o;
   c.reset(seed, p0, p1, os);
   try {
@@ -358,6 +372,40 @@ void execute(const OpEntry& e, std::uint64_t seed, long p0, long p1, int slot, c
 }
 }  // namespace
 
+namespace {
+// ---- at-exit sweep: ops queued by EXITOP run from the destructor of a namespace-scope object that a generated
+// translation unit defines after the library's includes (a user's logger or results writer that prints at exit):
+// by then the main thread's thread_local objects and every function-local static constructed during the run
+// have already been destroyed.
+struct ExitOp { const OpEntry* e; std::uint64_t seed; long idx; };
+ExitOp g_exit_queue[256];
+int g_nexit = 0;
+long g_exit_run = 0;
+}  // namespace
+namespace vrt {
+void run_exit_queue() {
+  for (int i = 0; i < g_nexit; ++i) {
+    const ExitOp& x = g_exit_queue[i];
+    char b[512];
+    int n = std::snprintf(b, sizeof b, "B %ld %ld %s\n", g_exit_run, x.idx, x.e->name);
+    if (n > 0) { ssize_t w = ::write(1, b, static_cast<size_t>(n)); (void)w; }
+    g_phase = "at-exit";
+    Ctx c;
+    Scratch s;
+    Outcome o = run_once_here(*x.e, c, x.seed, -1, -1, &s.os);
+    if (o.cls == 2) {
+      n = std::snprintf(b, sizeof b, "V %ld %ld foreign-exception:%s fault=at-exit\n", g_exit_run, x.idx, o.type.c_str());
+      if (n > 0) { ssize_t w = ::write(1, b, static_cast<size_t>(n)); (void)w; }
+    } else if (o.invalid_enum) {
+      n = std::snprintf(b, sizeof b, "V %ld %ld invalid-enum fault=at-exit\n", g_exit_run, x.idx);
+      if (n > 0) { ssize_t w = ::write(1, b, static_cast<size_t>(n)); (void)w; }
+    }
+    n = std::snprintf(b, sizeof b, "R %ld %ld ok n=0 fired=0 h0=%016llx len=%ld nf=0\n", g_exit_run, x.idx, static_cast<unsigned long long>(o.h), o.len);
+    if (n > 0) { ssize_t w = ::write(1, b, static_cast<size_t>(n)); (void)w; }
+  }
+}
+}  // namespace vrt
+
 int main(int argc, char** argv) {
   std::set_terminate(on_terminate);
   std::map<std::string, const OpEntry*> byname;
@@ -393,6 +441,18 @@ int main(int argc, char** argv) {
       say("B %ld %ld CFG\n", g_run, g_opidx);
       reset_slot(((slot % vrt::kStreamSlots) + vrt::kStreamSlots) % vrt::kStreamSlots, budget, mode % 3, state % 8, flags);
       say("R %ld %ld ok n=0 fired=0 h0=0 len=0 nf=0\n", g_run, g_opidx);
+      ++g_opidx;
+    } else if (cmd == "EXITOP") {
+      std::string name;
+      unsigned long long seed = 0;
+      is >> name >> seed;
+      auto it = byname.find(name);
+      if (it == byname.end()) {
+        say("U %ld %ld %s\n", g_run, g_opidx, name.c_str());
+      } else if (g_nexit < 256) {
+        g_exit_queue[g_nexit++] = ExitOp{it->second, seed, g_opidx};
+        g_exit_run = g_run;
+      }
       ++g_opidx;
     } else if (cmd == "MODE") {
       // ambient floating-point state left by the caller: rounding mode for the rest of this run
@@ -438,9 +498,11 @@ int main(int argc, char** argv) {
       std::string name, fault;
       unsigned long long seed = 0;
       long p0 = -1, p1 = -1, fa = 0, fb = 0;
-      int slot = -1, vc = -1;
+      int slot = -1, vc = -1, thr = 0;
       is >> name >> seed >> p0 >> p1 >> slot >> fault >> fa >> fb;
       if (!(is >> vc)) vc = -1;
+      if (!(is >> thr)) thr = 0;
+      g_in_thread = thr != 0;
       auto it = byname.find(name);
       if (it == byname.end()) {
         say("U %ld %ld %s\n", g_run, g_opidx, name.c_str());
@@ -448,6 +510,7 @@ int main(int argc, char** argv) {
         say("B %ld %ld %s\n", g_run, g_opidx, name.c_str());
         execute(*it->second, seed, p0, p1, slot, fault, fa, fb, vc, st);
       }
+      g_in_thread = false;
       ++g_opidx;
     } else if (cmd == "END") {
       say("E %ld\n", g_run);
